@@ -83,6 +83,11 @@ func ruleNameAfterDot(c *Ctx, a *parserAnchors, t *tables) {
 		return
 	}
 	readsCur := func(v ssa.Value) bool {
+		for _, sub := range []string{"Type", "Literal", "AfterNewline"} {
+			if tokenFieldLoad(v, a.cur, sub) {
+				return true // also through a local copy of the token (`tok := p.CurrentToken`)
+			}
+		}
 		if u, ok := v.(*ssa.UnOp); ok && u.Op == token.MUL {
 			_, path := fieldPath(u.X)
 			for _, fld := range path {
@@ -98,55 +103,73 @@ func ruleNameAfterDot(c *Ctx, a *parserAnchors, t *tables) {
 		}
 		return false
 	}
+	qualifies := func(b *ssa.BasicBlock) bool {
+		iff := blockIf(b)
+		if iff == nil || !dependsOn(iff.Cond, readsCur) || !adv.Block().Dominates(b) {
+			return false
+		}
+		if adv.Block() == b {
+			// the current-token reads the condition is computed from stand behind the advance
+			seenAdv := false
+			for _, in := range b.Instrs {
+				if in == ssa.Instruction(adv) {
+					seenAdv = true
+				}
+				if v, ok := in.(ssa.Value); ok && readsCur(v) && !seenAdv && dependsOn(iff.Cond, func(x ssa.Value) bool { return x == v }) {
+					return false
+				}
+			}
+		}
+		return true
+	}
+	reaches := func(from, to *ssa.BasicBlock, stop func(*ssa.BasicBlock) bool) bool {
+		seen := map[*ssa.BasicBlock]bool{}
+		var walk func(b *ssa.BasicBlock) bool
+		walk = func(b *ssa.BasicBlock) bool {
+			if b == to {
+				return true
+			}
+			if seen[b] || (stop != nil && stop(b)) {
+				return false
+			}
+			seen[b] = true
+			for _, s2 := range b.Succs {
+				if walk(s2) {
+					return true
+				}
+			}
+			return false
+		}
+		return walk(from)
+	}
 	for i, sp := range subs {
 		key := fmt.Sprintf("%s: property parse #%d behind a test of the token after '.'", fnName(f), i+1)
+		// (1) every path from the advance to the property parse passes a branch computed from the token behind the dot
+		cut := true
+		if !qualifies(adv.Block()) {
+			cut = !reaches(adv.Block(), sp.Block(), func(b *ssa.BasicBlock) bool { return b != adv.Block() && qualifies(b) })
+			if adv.Block() == sp.Block() {
+				cut = false
+			}
+		}
+		// (2) one of those branches has an edge that never reaches the property parse and cannot return without an error
 		good := ""
 		for _, b := range f.Blocks {
-			iff := blockIf(b)
-			if iff == nil {
+			if !qualifies(b) {
 				continue
-			}
-			if !dependsOn(iff.Cond, readsCur) {
-				continue
-			}
-			// (i) behind the advance
-			if !(adv.Block().Dominates(b)) {
-				continue
-			}
-			if adv.Block() == b {
-				// the advance must come before the condition is computed: any current-token read of the condition in this
-				// block stands behind the call
-				late := true
-				seenAdv := false
-				for _, in := range b.Instrs {
-					if in == ssa.Instruction(adv) {
-						seenAdv = true
-					}
-					if v, ok := in.(ssa.Value); ok && readsCur(v) && !seenAdv && dependsOn(iff.Cond, func(x ssa.Value) bool { return x == v }) {
-						late = false
-					}
-				}
-				if !late {
-					continue
-				}
 			}
 			for e := 0; e < 2; e++ {
-				if !condEdgeDominates(b, e == 0, sp.Block()) {
-					continue
-				}
-				// (iii) the other edge reports
-				other := b.Succs[1-e]
-				if escapesWithoutError(a, other, sp.Block()) {
+				if reaches(b.Succs[e], sp.Block(), nil) || escapesWithoutError(a, b.Succs[e], sp.Block()) {
 					continue
 				}
 				good = "block " + fmt.Sprint(b.Index)
-				if v, ok := iff.Cond.(ssa.Instruction); ok && v.Pos().IsValid() {
+				if v, ok := blockIf(b).Cond.(ssa.Instruction); ok && v.Pos().IsValid() {
 					good = c.pos(v.Pos())
 				}
 			}
 		}
-		c.check(good != "", key, sp.Pos(), "the property is parsed only behind the test at "+good+", whose refusal records an error",
-			"the token behind '.' is handed to the expression parser without having been looked at: `console.(x)`, `x.[0]`, `a.\"s\"` are accepted — what a deleted property name leaves of a valid program is not reported, and the output is not JavaScript")
+		c.check(cut && good != "", key, sp.Pos(), "every path to the property parse passes a test of the token behind the dot; the refusal at "+good+" records an error",
+			"the token behind '.' is handed to the expression parser without having been looked at (or the test cannot refuse with an error): `console.(x)`, `x.[0]`, `a.\"s\"` are accepted — what a deleted property name leaves of a valid program is not reported, and the output is not JavaScript")
 	}
 }
 
